@@ -187,11 +187,11 @@ func (e *Env) indepProbe(who string, aid uint64, vb func() error, h func(ctx sdk
 	for _, k := range alKeys {
 		_ = e.k.AllowedBidder.Remove(fork, k)
 	}
-	nx, nt, bc, saved := len(e.xfers), len(e.trace), e.bankCall, e.ctx
+	nx, nt, bc, saved, no := len(e.xfers), len(e.trace), e.bankCall, e.ctx, len(e.order)
 	e.ctx = fork
 	r := e.tx(vb, h)
 	e.ctx = saved
-	e.xfers, e.trace, e.bankCall = e.xfers[:nx], e.trace[:nt], bc
+	e.xfers, e.trace, e.bankCall, e.order = e.xfers[:nx], e.trace[:nt], bc, e.order[:no]
 	return r.Class, true
 }
 
